@@ -20,13 +20,38 @@ use crate::SplitMix64;
 // ------------------------------------------------------------------ values
 
 /// Variant order matters: the derived `Ord` is what `Lang.val_cmp` mirrors.
-#[derive(Clone, PartialEq, Eq, Hash, PartialOrd, Ord, Debug, Serialize, Deserialize)]
+#[derive(Clone, PartialEq, Eq, PartialOrd, Ord, Debug, Serialize, Deserialize)]
 pub enum Val {
     Int(i64),
     Pair(Box<Val>, Box<Val>),
     List(Vec<Val>),
     None,
     Some(Box<Val>),
+}
+
+/// A deliberately COARSE (but lawful) `Hash`: equal values hash equally, many unequal values
+/// collide (integers that agree modulo 16, lists of the same length).  The crate may rely on
+/// `Eq` for key identity only; anything that identifies keys by their hash is exposed.
+impl std::hash::Hash for Val {
+    fn hash<H: std::hash::Hasher>(&self, h: &mut H) {
+        match self {
+            Val::Int(z) => h.write_u8(z.rem_euclid(16) as u8),
+            Val::Pair(a, b) => {
+                h.write_u8(101);
+                a.hash(h);
+                b.hash(h);
+            }
+            Val::List(l) => {
+                h.write_u8(102);
+                h.write_usize(l.len());
+            }
+            Val::None => h.write_u8(103),
+            Val::Some(x) => {
+                h.write_u8(104);
+                x.hash(h);
+            }
+        }
+    }
 }
 
 impl Default for Val {
@@ -2761,6 +2786,48 @@ pub fn join_side_barrier_cases(rng: &mut SplitMix64, full: bool) -> Vec<(Src, Ve
     out
 }
 
+/// deep fan-in trees: so many effective partitions and so small a fan-out that the global combine
+/// needs up to 13 merge rounds (fan-out 0 / 1 are clamped to 2), in the main chain and on either
+/// side of a join (the sub-plan engine has its own copy of the loop)
+pub fn deep_fanin_cases(full: bool) -> Vec<(Src, Vec<Step>, usize)> {
+    let mut out = vec![];
+    let grid: Vec<(usize, usize, Option<usize>)> = if full {
+        let mut v = vec![];
+        for (len, parts) in [(520usize, 257usize), (600, 300), (1000, 1000), (1100, 1024), (2100, 2049), (5000, 5000)] {
+            for f in [Some(0), Some(1), Some(2), Some(3), Some(4), None] {
+                v.push((len, parts, f));
+            }
+        }
+        v.push((7000, 7000, Some(3)));
+        v
+    } else {
+        vec![(520, 257, Some(1)), (600, 300, Some(2)), (1000, 1000, Some(0)), (1000, 1000, Some(2)),
+             (2100, 2049, Some(2)), (1100, 1024, Some(3)), (5000, 5000, Some(2)), (7000, 7000, Some(3))]
+    };
+    for (i, (len, parts, f)) in grid.into_iter().enumerate() {
+        let u: Vec<Val> = (0..len as i64).map(|x| Val::Int(x * 3 + 1)).collect();
+        let (c, lifted) = [(Cid::Sum, false), (Cid::Count, true), (Cid::Sum, true), (Cid::TopK(3), false)][i % 4].clone();
+        out.push((Src::Vec(Shape::U, u), vec![Step::CombineGlobally(c.clone(), lifted, f)], parts));
+        if len <= 2100 {
+            // the same tree on the left and on the right side of a join
+            let kv: Vec<Val> = (0..len as i64).map(|x| pair(Val::Int(x % 5), Val::Int(x * 3 + 1))).collect();
+            let mut ch = vec![Step::Unkey, Step::Map(EFun::Snd), Step::CombineGlobally(c.clone(), lifted, f)];
+            if c.list_out() {
+                ch.push(Step::FlatMap(GFun::Elems));
+            }
+            ch.push(Step::KeyBy(EFun::Mod(3)));
+            let small = vec![pair(Val::Int(0), Val::Int(7)), pair(Val::Int(1), Val::Int(8)), pair(Val::Int(2), Val::Int(9))];
+            if full || i % 2 == 0 {
+                out.push((Src::Vec(Shape::KV, kv.clone()), [ch.clone(), vec![Step::Join(JoinKind::Full, vec![], small.clone())]].concat(), parts));
+            }
+            if full || i % 2 == 1 {
+                out.push((Src::Vec(Shape::KV, small), vec![Step::Join(JoinKind::Full, ch, kv)], parts));
+            }
+        }
+    }
+    out
+}
+
 // ------------------------------------------------------------------ emptied-partition sweeps
 
 /// Element-wise steps on an unkeyed source of the integers 0..len that leave a chosen set of the
@@ -3125,7 +3192,10 @@ pub fn big_combine_cases(full: bool) -> Vec<(Src, Vec<Step>, Mode)> {
 pub fn big_group_cases(full: bool) -> Vec<(Src, Vec<Step>, Mode)> {
     let mut out = vec![];
     let cids = [Cid::Sum, Cid::Count, Cid::Min, Cid::TopK(3)];
-    for (gi, g) in [127usize, 128, 129, 300, 1000].into_iter().enumerate() {
+    for (gi, g) in [127usize, 128, 129, 300, 1000, 4097, 8200].into_iter().enumerate() {
+        if !full && g == 8200 {
+            continue;
+        }
         let vals: Vec<Val> = (0..g as i64).map(|i| Val::Int((i - g as i64 / 2).abs() + 1 + (i % 3))).collect();
         let grouped = Src::Vec(Shape::KG, vec![
             pair(Val::Int(0), Val::List(vals.clone())),
